@@ -19,12 +19,25 @@
 #ifndef N
 #define N 8
 #endif
+#ifdef MENU
+#define MAXU MENU
+#elif defined(UNITS)
+#define MAXU UNITS
+#else
 #define MAXU ((N + 1) / 2) /* units a message of N bytes can hold */
+#endif
 #define EH (N + 3) /* effective header capacity: a composed header is shorter than the message */
 
+#ifdef TMPL
+#define VIN_FIELDS(F, A) \
+    A(uint8_t, sel, N) \
+    A(uint8_t, acc, MAXU) \
+    F(uint8_t, len)
+#else
 #define VIN_FIELDS(F, A) \
     A(uint8_t, sel, N) \
     F(uint8_t, len)
+#endif
 #include "vin.h"
 
 static char buf[N + 1];
@@ -55,7 +68,11 @@ static scpi_result_t handler(scpi_t * c) {
         t_tag[t_n] = tag;
         t_rawlen[t_n] = (int) c->param_list.cmd_raw.length;
         for (i = 0; i < EH; i++) t_raw[t_n][i] = (i < (int) c->param_list.cmd_raw.length) ? c->param_list.cmd_raw.data[i] : 0;
+#ifdef TMPL
+        t_iscmd[t_n] = 1; /* SCPI_IsCmd hands the matcher a caller-supplied pattern; with a symbolic acceptance relation there is nothing to compare */
+#else
         t_iscmd[t_n] = (tag >= 0 && tag < 8) ? SCPI_IsCmd(c, canon[tag]) : 0;
+#endif
     }
     t_n++;
     return SCPI_RES_OK;
@@ -114,7 +131,41 @@ int scpiParser_parseAllProgramData(lex_state_t * state, scpi_token_t * token, in
 }
 #endif
 
-#ifdef STUB_matchCommand
+#if defined(STUB_matchCommand) && defined(TMPL)
+/* Template variant (-DTMPL="text"): the message text is concrete, the ACCEPTANCE RELATION of the 8-entry table is symbolic:
+ * which entries accept which effective header is an arbitrary function acc[text] -> 8-bit set (vin.acc, keyed by the first
+ * unit carrying that effective header, so equal texts get equal answers).  The dispatch logic is thereby checked for every
+ * command table of 8 entries at once - any overlap, any order - on messages of 3 and 4 units that the free-text variant
+ * cannot afford.  A text that is not the effective header of any unit is refused and flagged. */
+static char tm_eff[MAXU][EH];
+static int tm_efflen[MAXU];
+static int tm_units;
+static int tm_bad_text;
+static int tm_key(const char * e, int el) {
+    int u, k;
+    for (u = 0; u < MAXU; u++) {
+        if (u < tm_units && tm_efflen[u] == el) {
+            int same = 1;
+            for (k = 0; k < EH; k++) if (k < el && tm_eff[u][k] != e[k]) same = 0;
+            if (same) return u;
+        }
+    }
+    return -1;
+}
+scpi_bool_t matchCommand(const char * pattern, const char * cmd, size_t len, int32_t * numbers, size_t numbers_len, int32_t default_value) {
+    int i, idx = -1, l = 0, key;
+    char e[EH];
+    (void) numbers; (void) numbers_len; (void) default_value;
+    for (i = 0; i < 8; i++) if (pattern == cmds[i].pattern) idx = i;
+    if (len > EH) { tm_bad_text = 1; return FALSE; }
+    for (i = 0; i < EH; i++) {
+        if (i < (int) len && cmd[i] != 0 && l == i) { e[i] = cmd[i]; l = i + 1; }
+    }
+    key = tm_key(e, l);
+    if (key < 0 || idx < 0) { tm_bad_text = 1; return FALSE; }
+    return (vin.acc[key] >> idx) & 1;
+}
+#elif defined(STUB_matchCommand)
 /* Pattern acceptance is C03's subject (real matchCommand against a reference matcher, per pattern).  Here the real
  * matcher can be replaced by the reference acceptance relation of the table above - a deterministic function of
  * (pattern, header text) - so that the dispatch logic (unit loop, in-place header composition, first match, -113) is
@@ -161,6 +212,28 @@ void harness(void) {
             buf[i] = orig[i];
         }
     }
+#elif defined(TMPL)
+    {
+        static const char tmpl[] = TMPL;
+        n = (int) sizeof tmpl - 1;
+        for (i = 0; i < N; i++) {
+            orig[i] = i < n ? tmpl[i] : 0;
+            buf[i] = orig[i];
+        }
+    }
+#elif defined(SHAPE)
+    /* shaped variant: the positions of ':' ';' '*' '?' and LF are concrete (-DSHAPE), every '#' is a symbolic letter of
+     * {A B C}.  With the unit boundaries fixed the lexers run on concrete positions, which makes 3- and 4-unit messages
+     * (compound header, common command in the middle, relative header, undefined units ...) affordable in the quick tier. */
+    {
+        static const char shape[] = SHAPE;
+        n = (int) sizeof shape - 1;
+        for (i = 0; i < N; i++) {
+            if (i < n && shape[i] == '#') { VASSUME((vin.sel[i] & 3) < 3); orig[i] = alphabet[vin.sel[i] & 3]; }
+            else orig[i] = i < n ? shape[i] : 0;
+            buf[i] = orig[i];
+        }
+    }
 #else
     n = vin.len;
     VASSUME(n >= 1 && n <= N);
@@ -190,7 +263,16 @@ void harness(void) {
                 for (k = 0; k < N; k++) if (k < hl) eff[el++] = (char) at(pos + k);
             }
             {
+#ifdef TMPL
+                int idx = -1, key, b;
+                for (k = 0; k < EH; k++) tm_eff[u][k] = k < el ? eff[k] : 0;
+                tm_efflen[u] = el;
+                tm_units = u + 1;
+                key = tm_key(eff, el);
+                for (b = 7; b >= 0; b--) if ((vin.acc[key] >> b) & 1) idx = b; /* first accepting entry */
+#else
                 int idx = ref_lookup(eff, el);
+#endif
                 if (idx >= 0) {
                     exp_tag[exp_n] = idx;
                     exp_rawlen[exp_n] = el;
@@ -227,6 +309,9 @@ void harness(void) {
     ctx.error_queue.size = 8;
     SCPI_Parse(&ctx, buf, n);
 
+#ifdef TMPL
+    VASSERT(!tm_bad_text, "C02 the table is only ever searched for a unit's effective header (path of the preceding unit's effective header + header as written)");
+#endif
     VASSERT(t_n == exp_n, "C02 exactly the units with a matching command run a handler, once each");
     for (u = 0; u < MAXU; u++) {
         if (u < exp_n && u < t_n) {
